@@ -990,7 +990,8 @@ fn lc_open(ctx: &mut Ctx, rng: &mut Rng, id: &str, c: &Case, cs: &[CommS], lcs: 
     let r = guarded(|| PC::open_combinations(&c.ck, lcs, &c.polys, &c.comms, qs, sp, &c.rands, Some(&mut rng.clone())));
     let xis: Vec<Fr> = sp.challenges()[before..].to_vec();
     let ngroups = crate::generic::group(qs).len();
-    let full = if matches!(r, Ok(Ok(_))) { xis.clone() } else { pad_xis(&xis, qs.len() + ngroups + 2, id, 3) };
+    // always more challenges than needed: `used` then pins the consumption from both sides
+    let full = pad_xis(&xis, if matches!(r, Ok(Ok(_))) { xis.len() + 2 } else { qs.len() + ngroups + 2 }, id, 3);
     let mk = |op: &str| queries_args(lcs_args(comms_args(rands_args(polys_args(c.base(op), &c.polys), &c.rands), cs), lcs), qs).arg("xis", wire::fes(&full));
     match &r {
         Ok(Ok(p)) => {
@@ -1026,7 +1027,7 @@ fn lc_check(ctx: &mut Ctx, rng: &mut Rng, id: &str, c: &Case, cs: &[CommS], lcs:
     let before = vs.challenges().len();
     let r = guarded(|| PC::check_combinations(&c.vk, lcs, &comms, qs, ev, &proof, vs, rng));
     let xis: Vec<Fr> = vs.challenges()[before..].to_vec();
-    let full = if matches!(r, Ok(Ok(_))) { xis.clone() } else { pad_xis(&xis, qs.len() + ngroups + 2, id, 4) };
+    let full = pad_xis(&xis, if matches!(r, Ok(Ok(_))) { xis.len() + 2 } else { qs.len() + ngroups + 2 }, id, 4);
     let mk = |op: &str| evals_args(queries_args(lcs_args(comms_args(c.base(op), cs), lcs), qs), ev)
         .arg("ws", wire::fes(ws))
         .arg("rvs", wire::Val::L(rvs.iter().map(|x| wire::opt_fe(x)).collect()))
@@ -1182,6 +1183,51 @@ fn c06(ctx: &mut Ctx) {
                 }
                 ctx.rep.count(&format!("sonic/lc-refused-{}/{}/{}", vname, pk, vk_kind));
                 ctx.rep.case(&format!("{} lc refused {} prover={} verifier={}", c.desc(), vname, pk, vk_kind), Some(format!("sonic-lc/refused/{}/{}", vname, pk)));
+            }
+        }
+
+        // ---- (C) two combinations under ONE label (no canonical "true value": model equality only).  The
+        // batch prover opens the LAST combination with the label, the verifier subtracts the constants of
+        // BOTH from the claim: the claim `last(z) + all constants` is the one the model's completeness
+        // theorem covers ----
+        {
+            let unb: Vec<usize> = (0..npoly).filter(|&k| c.polys[k].degree_bound().is_none()).collect();
+            if !unb.is_empty() && i % 2 == 0 {
+                let id = format!("{}/duplicate-label", id0);
+                let mut lcs = gen_sonic_lcs(&mut rng, &c, 2, "x");
+                for lc in lcs.iter_mut() {
+                    // keep them over unbounded polynomials, with a constant each
+                    let mut t: Vec<(Fr, LCTerm)> = lc_terms(lc).into_iter().filter(|t| match &t.1 { LCTerm::PolyLabel(l) => c.polys.iter().any(|p| p.label() == l && p.degree_bound().is_none()), _ => true }).collect();
+                    t.push((Fr::rand(&mut rng), LCTerm::PolyLabel(c.polys[unb[0]].label().clone())));
+                    t.push((Fr::rand(&mut rng), LCTerm::One));
+                    *lc = LinearCombination::new("dup".to_string(), t);
+                }
+                let z = Fr::rand(&mut rng);
+                let mut qs: QuerySet<Fr> = QuerySet::new();
+                qs.insert(("dup".to_string(), ("pt".to_string(), z)));
+                let consts: Fr = lcs.iter().flat_map(|l| l.iter()).filter(|t| t.1.is_one()).map(|t| t.0).sum();
+                let last_poly: Fr = lcs[1].iter().map(|(co, t)| match t { LCTerm::PolyLabel(s) => *co * c.polys.iter().find(|p| p.label() == s).map(|p| p.evaluate(&z)).unwrap_or(Fr::zero()), _ => Fr::zero() }).sum();
+                let mut ev: Evaluations<Fr, Fr> = Evaluations::new();
+                ev.insert(("dup".to_string(), z), last_poly + consts);
+                let mut sp = LogSponge::fresh();
+                let (r, xis) = lc_open(ctx, &mut rng, &format!("{}/prover", id), &c, &cs, &lcs, &qs, &mut sp);
+                if let (Ok(Ok(p)), Some((lp, lr))) = (r, lc_combined(&c, &lcs)) {
+                    let ws = lc_witness_scalars(&c, &lp, &lr, &qs, &xis);
+                    if ws.len() == p.proof.len() && ws.iter().zip(p.proof.iter()).all(|(w, q)| g1(*w) == q.w) {
+                        let rvs: Vec<Option<Fr>> = p.proof.iter().map(|x| x.random_v).collect();
+                        let mut vs = LogSponge::fresh();
+                        let (o, _, _) = lc_check(ctx, &mut rng, &format!("{}/verifier", id), &c, &cs, &lcs, &qs, &ev, &ws, &rvs, &mut vs, true);
+                        ctx.rep.count(&format!("sonic/lc-duplicate-label-{:?}", o));
+                        // the claim `last(z) + its own constants` is then a different statement
+                        let mut e2 = ev.clone();
+                        let own: Fr = lcs[1].iter().filter(|t| t.1.is_one()).map(|t| t.0).sum();
+                        *e2.get_mut(&("dup".to_string(), z)).unwrap() = last_poly + own;
+                        let mut vs = LogSponge::fresh();
+                        let (o2, _, _) = lc_check(ctx, &mut rng, &format!("{}/verifier-own-constants", id), &c, &cs, &lcs, &qs, &e2, &ws, &rvs, &mut vs, false);
+                        ctx.rep.count(&format!("sonic/lc-duplicate-label-own-constants-{:?}", o2));
+                        ctx.rep.case(&format!("{} lc duplicate label out={:?}/{:?}", c.desc(), o, o2), Some(format!("sonic-lc/dup/{:?}/{:?}", o, o2)));
+                    }
+                }
             }
         }
 
